@@ -150,4 +150,103 @@ theorem c16_next_ref_pending_registers (eqv : Nat → Nat → Bool) (hash : Nat 
     a.pollNextRef eqv hash k = some (a1, none, lw) := by
   simp only [AWorld.pollNextRef, hf, hk, hst, hp]
 
+/-- permits a queued waiter has already collected -/
+def collected (q : List AWaiter) : Nat := (q.map fun w => w.total - w.remaining).sum
+
+/-- total size of the requests completed by a release (their owners now hold that many permits) -/
+def releaseGranted : List AWaiter → Nat → Nat
+  | [], _ => 0
+  | w :: ws, rem =>
+    if rem = 0 then 0
+    else if w.remaining ≤ rem then w.total + releaseGranted ws (rem - w.remaining)
+    else 0
+
+/-- well-formed queue: every waiter still misses something, never more than it asked for -/
+def QueueOK (q : List AWaiter) : Prop := ∀ w ∈ q, 0 < w.remaining ∧ w.remaining ≤ w.total
+
+/-- **permit conservation**: free permits + permits parked with queued waiters + permits held by completed acquirers
+    (`out`) = `max`; and free permits exist only while nobody is queued -/
+def SemInv (s : ASem) (out : Nat) : Prop :=
+  s.avail + collected s.queue + out = s.max ∧ QueueOK s.queue ∧ (s.queue ≠ [] → s.avail = 0)
+
+theorem collected_append (a b : List AWaiter) : collected (a ++ b) = collected a + collected b := by
+  simp [collected, List.map_append, List.sum_append]
+
+theorem seminv_acquire (s : ASem) (o : AOwner) (n out : Nat) (hn : 0 < n) (hi : SemInv s out) :
+    SemInv (s.acquire o n).1 (if (s.acquire o n).2 then out + n else out) := by
+  obtain ⟨h1, h2, h3⟩ := hi
+  unfold ASem.acquire
+  by_cases h : n ≤ s.avail
+  · simp only [h, if_true]
+    refine ⟨by simp only; omega, h2, ?_⟩
+    intro hq; have := h3 hq; simp only; omega
+  · simp only [h, if_false, Bool.false_eq_true]
+    refine ⟨?_, ?_, fun _ => rfl⟩
+    · simp only [collected_append]
+      simp only [collected] at h1 ⊢
+      simp; omega
+    · intro w hw
+      rcases List.mem_append.mp hw with hw | hw
+      · exact h2 w hw
+      · simp at hw; subst hw; simp only; omega
+
+theorem releaseLoop_conserves (q : List AWaiter) : ∀ (rem : Nat), QueueOK q →
+    (releaseLoop q rem).2.1 + collected (releaseLoop q rem).1 + releaseGranted q rem = rem + collected q ∧
+    QueueOK (releaseLoop q rem).1 ∧ ((releaseLoop q rem).1 ≠ [] → (releaseLoop q rem).2.1 = 0) := by
+  induction q with
+  | nil => intro rem _; simp [releaseLoop, collected, releaseGranted, QueueOK]
+  | cons w ws ih =>
+    intro rem hq
+    have hw := hq w (List.mem_cons_self ..)
+    have hws : QueueOK ws := fun x hx => hq x (List.mem_cons_of_mem _ hx)
+    unfold releaseLoop releaseGranted
+    by_cases h0 : rem = 0
+    · subst h0; simp only [if_true]
+      exact ⟨by simp, hq, by simp⟩
+    · simp only [h0, if_false]
+      by_cases h1 : w.remaining ≤ rem
+      · simp only [h1, if_true]
+        obtain ⟨g1, g2, g3⟩ := ih (rem - w.remaining) hws
+        refine ⟨?_, g2, g3⟩
+        simp only [collected, List.map_cons, List.sum_cons] at g1 ⊢
+        omega
+      · simp only [h1, if_false]
+        refine ⟨?_, ?_, by simp⟩
+        · simp only [collected, List.map_cons, List.sum_cons]; omega
+        · intro x hx
+          rcases List.mem_cons.mp hx with rfl | hx
+          · simp only; omega
+          · exact hws x hx
+
+/-- releasing `n` permits that were held: nothing is lost, what completes a request is held by its owner afterwards -/
+theorem seminv_release (s : ASem) (n out : Nat) (hn : n ≤ out) (hi : SemInv s out) :
+    SemInv (s.release n).1 (out - n + releaseGranted s.queue n) := by
+  obtain ⟨h1, h2, h3⟩ := hi
+  obtain ⟨g1, g2, g3⟩ := releaseLoop_conserves s.queue n h2
+  unfold ASem.release
+  refine ⟨?_, g2, ?_⟩
+  · simp only
+    by_cases hq : s.queue = []
+    · simp [hq, releaseLoop, collected, releaseGranted] at g1 ⊢; simp [hq, collected] at h1; omega
+    · have := h3 hq; omega
+  · intro hq'
+    simp only at hq' ⊢
+    have := g3 hq'
+    by_cases hq : s.queue = []
+    · simp [hq, releaseLoop] at hq'
+    · have := h3 hq; omega
+
+/-- **mutual exclusion from conservation**: while a writer holds all `max` permits, no permit is free and nobody else
+    holds or has collected any -/
+theorem c16_writer_excludes (s : ASem) (others : Nat) (hi : SemInv s (s.max + others)) :
+    s.avail = 0 ∧ collected s.queue = 0 ∧ others = 0 := by
+  obtain ⟨h1, _, _⟩ := hi; omega
+
+/-- while `r` readers hold a permit each, a write request cannot be satisfied at once unless `r = 0` -/
+theorem c16_readers_block_writer (s : ASem) (r : Nat) (hr : 0 < r) (hi : SemInv s r) (o : AOwner) : (s.acquire o s.max).2 = false := by
+  obtain ⟨h1, _, _⟩ := hi
+  unfold ASem.acquire
+  have : ¬ s.max ≤ s.avail := by omega
+  simp [this]
+
 end EV
